@@ -561,7 +561,7 @@ func init() {
 		[]Stage{en("c26sw", 16, 1500, prm("full", true)), en("c26inc", 8, 60, nil)})
 
 	planTable["C27"] = enumPlan("exploration",
-		"All operation sequences of length <= 4 (quick) / 5 (thorough) over {Set, Delete} x {x,y} for NewWriteBatch (normal DB) and NewWriteBatchAt(6), (NewWriteBatchAt additionally mixes in SetEntryAt / DeleteAt on x at 5 and 7), and over {SetEntryAt, DeleteAt} x {x,y} x {ts 5,7} for NewManagedWriteBatch, with the batch's transaction limit set so that it splits after every 1, 2 or 3 entries (and not at all); after Flush every key is read (managed: at every timestamp 4..8) and must show the LAST call for that key (and version).",
+		"All operation sequences of length <= 4 (quick) / 5 (thorough) over {Set, Delete} x {x,y} for NewWriteBatch (normal DB) and NewWriteBatchAt(6), (NewWriteBatchAt additionally mixes in SetEntryAt / DeleteAt on x at 5, 6 - the batch's own timestamp - and 7), over {SetEntryAt, DeleteAt} x {x,y} x {ts 5,7} for NewManagedWriteBatch, and over calls without a version mixed with versioned ones for NewManagedWriteBatch (Flush may refuse such a batch; when it returns nil a key whose last call had no version must show that call to a reader at the largest timestamp), with the batch's transaction limit set so that it splits after every 1, 2 or 3 entries (and not at all); after Flush every key is read (managed: at every timestamp 4..8) and must show the LAST call for that key (and version).",
 		"Runs on an in-memory DB; the split is forced through the same count limit that production uses (maxBatchCount).",
 		"nested enumeration; distinct = distinct (mode, split, operation sequence)",
 		[]Stage{en("c27batch", 16, 60, prm("len", 4))},
